@@ -241,6 +241,7 @@ func (r *erun) setup() error {
 		} else {
 			c.VerifSetRateLimitInterval(time.Hour) // no reset inside an offence scenario: the counter model is exact
 		}
+		c.VerifSetResponseTimeout(time.Minute) // no silent re-sends: every request is counted once
 		if err := c.Start([]byte(fmt.Sprintf("c18-%d-%d-%d", evid.Seed(), id, i))); err != nil {
 			return fmt.Errorf("start node %d on %s: %w", i, addr, err)
 		}
@@ -285,13 +286,17 @@ func (r *erun) connected(a, b int) bool {
 	return has(r.nodes[a].conn.ConnectedPeers(), r.nodes[b].conn.ID())
 }
 
+// waitFor polls f until it holds; gives up after d of wall time during which this process also got d/10ms heartbeats.
 func waitFor(d time.Duration, f func() bool) bool {
+	heartbeat()
 	deadline := time.Now().Add(d)
+	start := hbBeats.Load()
+	need := int64(d / (10 * time.Millisecond))
 	for {
 		if f() {
 			return true
 		}
-		if time.Now().After(deadline) {
+		if time.Now().After(deadline) && hbBeats.Load()-start >= need {
 			return false
 		}
 		time.Sleep(5 * time.Millisecond)
@@ -330,15 +335,30 @@ func (r *erun) dial(a, b int, why string) string {
 	r.logf("dial %s -> %s (%s): ok=%v  [%s's view of %s: %s; %s's view of %s: %s] %s", r.name(a), r.name(b), why, ok, r.name(a), B.ip, za, r.name(b), A.ip, zb, errText(err))
 	r.res.labels["dial:"+za+"/"+zb] = true
 	if ok {
-		// accepted by a's InterceptAddrDial and b's InterceptAccept/InterceptSecured
-		if v := A.bm.gate(B.ip, gAddrDial, true, t0, t1); v != "" {
-			return fmt.Sprintf("outbound connection %s -> %s succeeded: %s", r.name(a), r.name(b), v)
-		}
-		if v := B.bm.gate(A.ip, gAccept, true, t0, t1); v != "" {
-			return fmt.Sprintf("inbound connection at %s from %s succeeded: %s", r.name(b), r.name(a), v)
-		}
 		if !waitFor(5*time.Second, func() bool { return r.connected(a, b) && r.connected(b, a) }) {
 			r.res.infra = "connection not visible on both sides after a successful dial"
+			return ""
+		}
+		// Environment guard: a node dials from its listen socket (SO_REUSEPORT), so its peer sees the listen IP. When
+		// the kernel cannot reuse that 4-tuple (TIME_WAIT after a close) libp2p falls back to an unbound socket and the
+		// loopback source address becomes 127.0.0.1 - a different IP, about which the scenario's model says nothing.
+		seenOK := false
+		seen := B.conn.VerifRemoteAddrs(A.conn.ID())
+		for _, ra := range seen {
+			if strings.HasPrefix(ra, "/ip4/"+A.ip+"/") || strings.HasPrefix(ra, "/ip6/"+A.ip+"/") {
+				seenOK = true
+			}
+		}
+		if !seenOK {
+			r.res.infra = fmt.Sprintf("environment: %s is seen by %s as %v (source-address fallback), not as its listen IP", r.name(a), r.name(b), seen)
+			return ""
+		}
+		// accepted by a's InterceptAddrDial and b's InterceptAccept/InterceptSecured
+		if v, _ := A.bm.gate(B.ip, gAddrDial, true, t0, t1); v != "" {
+			return fmt.Sprintf("outbound connection %s -> %s succeeded: %s", r.name(a), r.name(b), v)
+		}
+		if v, _ := B.bm.gate(A.ip, gAccept, true, t0, t1); v != "" {
+			return fmt.Sprintf("inbound connection at %s from %s succeeded: %s", r.name(b), r.name(a), v)
 		}
 		return ""
 	}
@@ -347,15 +367,40 @@ func (r *erun) dial(a, b int, why string) string {
 	case aClean && bClean:
 		return fmt.Sprintf("connection %s -> %s refused although neither side has the other's IP banned or blacklisted: %v", r.name(a), r.name(b), err)
 	case !aClean && bClean:
-		if v := A.bm.gate(B.ip, gAddrDial, false, t0, t1); v != "" {
+		if v, soft := A.bm.gate(B.ip, gAddrDial, false, t0, t1); v != "" {
+			if soft && r.banListClears(a, b) == "" {
+				return "" // the sweep was late; the refusal was consistent with the (still listed) ban
+			}
 			return fmt.Sprintf("outbound connection %s -> %s refused: %s", r.name(a), r.name(b), v)
 		}
 	case aClean && !bClean:
-		if v := B.bm.gate(A.ip, gAccept, false, t0, t1); v != "" {
+		if v, soft := B.bm.gate(A.ip, gAccept, false, t0, t1); v != "" {
+			if soft && r.banListClears(b, a) == "" {
+				return ""
+			}
 			return fmt.Sprintf("inbound connection at %s from %s refused: %s", r.name(b), r.name(a), v)
 		}
 	}
 	return ""
+}
+
+// listedOnce feeds one listBannedPeers observation of y's IP at x into x's model.
+func (r *erun) listedOnce(x, y int) (string, bool) {
+	X, Y := r.nodes[x], r.nodes[y]
+	t0 := time.Now()
+	present := false
+	for _, ip := range X.conn.VerifBannedIPs() {
+		if canon(ip) == Y.ip {
+			present = true
+		}
+	}
+	return X.bm.listed(Y.ip, present, t0, time.Now())
+}
+
+// banListClears: x's ban of y's IP is over according to the model's latest bound; "" if the ban list agrees (possibly
+// after re-checking while the process runs).
+func (r *erun) banListClears(x, y int) string {
+	return persists(func() (string, bool) { return r.listedOnce(x, y) })
 }
 
 func errText(err error) string {
@@ -424,14 +469,7 @@ func (r *erun) expectPenalty(x, y int, exact int, cause string, t0 time.Time) st
 // afterBan: x has just banned y's IP: the peer must get disconnected.
 func (r *erun) afterBan(x, y int, cause string) string {
 	X, Y := r.nodes[x], r.nodes[y]
-	t0 := time.Now()
-	listed := false
-	for _, ip := range X.conn.VerifBannedIPs() {
-		if canon(ip) == Y.ip {
-			listed = true
-		}
-	}
-	if v := X.bm.listed(Y.ip, listed, t0, time.Now()); v != "" {
+	if v, _ := r.listedOnce(x, y); v != "" {
 		return v
 	}
 	envelope := cause == "badreq" || cause == "badres" || cause == "unkreq" || cause == "unkres"
@@ -488,6 +526,13 @@ func (r *erun) request(a, b int, proc string, data []byte) string {
 			add = P
 		}
 		appBan = !st.banned && st.score+add+k >= threshold
+	}
+	if proc == procStrict {
+		// Connection.ApplyPenalty/BanPeer act once per open connection to the peer; the model assumes the usual single one
+		if n := len(B.conn.VerifRemoteAddrs(A.conn.ID())); n != 1 {
+			r.res.infra = fmt.Sprintf("environment: %d connections between %s and %s (ApplyPenalty applies the amount once per connection)", n, r.name(a), r.name(b))
+			return ""
+		}
 	}
 	timeout := 10 * time.Second
 	if banB || appBan {
@@ -691,16 +736,9 @@ func (r *erun) runEvent(e eev) string {
 				continue
 			}
 			r.logf("await: %s's ban of %s (must last until +%.3fs, at most until +%.3fs)", r.name(p[0]), Y.ip, st.mustEnd.Sub(r.start).Seconds(), st.upper.Sub(r.start).Seconds())
-			hard := st.upper.Add(2 * X.bm.slack)
+			hard := st.upper.Add(10 * X.bm.slack)
 			for st.banned {
-				t0 := time.Now()
-				present := false
-				for _, ip := range X.conn.VerifBannedIPs() {
-					if canon(ip) == Y.ip {
-						present = true
-					}
-				}
-				if v := X.bm.listed(Y.ip, present, t0, time.Now()); v != "" {
+				if v := r.banListClears(p[0], p[1]); v != "" {
 					return v
 				}
 				if st.banned {
@@ -771,12 +809,6 @@ func runScenario(s escn) *seqResult {
 		if res.infra != "" {
 			return res
 		}
-		for _, ra := range r.nodes[1].conn.VerifRemoteAddrs(r.nodes[0].conn.ID()) {
-			if !strings.HasPrefix(ra, "/ip4/"+r.nodes[0].ip+"/") && !strings.HasPrefix(ra, "/ip6/"+r.nodes[0].ip+"/") {
-				res.infra = "remote address " + ra + " is not the peer's listen IP " + r.nodes[0].ip
-				return res
-			}
-		}
 	}
 	var key strings.Builder
 	fmt.Fprintf(&key, "%v|%v|%s|%d|%d|%d|%d|%d>%d.%d|", s.Legal, ips, s.Security, s.ExpiryS, s.SweepMs, s.Limit, s.Penalty, s.BlackBy, s.BlackOf, s.BlackF)
@@ -827,7 +859,15 @@ func runScenario(s escn) *seqResult {
 func runScenarioRobust(s escn) *seqResult {
 	var first *seqResult
 	for attempt := 1; attempt <= 3; attempt++ {
+		heartbeat()
+		stalls := hbStalls.Load()
 		res := runScenario(s)
+		if res.violation != "" && hbStalls.Load() != stalls {
+			// the process was not scheduled for > 250 ms at least once during this attempt: with bans that live 1-2 s
+			// a failed observation is not evidence
+			res.infra = "process stalled during the attempt; observed: " + res.violation
+			res.violation = ""
+		}
 		if res.violation == "" && res.infra == "" {
 			if first != nil {
 				evid.R.Inconclusive("e2e scenario failed on attempt 1 but passed on attempt %d: %s%s", attempt, first.violation, first.infra)
